@@ -289,6 +289,8 @@ def _run_case(rng, tier, res):
                 # the bus.  Either 1-6 cycles before tx_valid (the packet waits for the write), or inside the packet body (the
                 # write waits for the STP).  Not between tx_valid and the TXCMD's NXT: that is C24's open finding.
                 name = rng.choice(["term_select", "suspend", "id_pullup", "dp_pulldown", "chrg_vbus", "use_external_vbus_indicator"])
+                while b.cycle <= startup + 3:
+                    yield           # not inside the start-up delay: write and packet would become startable together (C24's open finding)
                 if rng.random() < 0.5 or len(data) < 4:
                     ctl[name] ^= 1
                     b.set(getattr(dut, name), ctl[name])
